@@ -21,7 +21,7 @@ func (c *Ctx) c09Corr() error {
 	r := c.RNG
 	n := 300
 	if c.Thorough() {
-		n = 20000
+		n = 100000
 	}
 	var lines, impl []string
 	for it := 0; it < n; it++ {
@@ -378,7 +378,7 @@ func runC09(c *Ctx) error {
 	}
 	np := 100
 	if c.Thorough() {
-		np = 3000
+		np = 8000
 	}
 	for done := 0; done < np; done += 200 {
 		var progs []GoProg
